@@ -454,3 +454,31 @@ def copy_rule(ctx, L, rule="R-MPG-COPY"):
                 ctx.holds(rule, inst)
     if n < 2:
         ctx.unknown(rule, "buffered groups not found (%d)" % n)
+
+
+def mpg_steps(ctx, L, rule="R-MPG-STEPS"):
+    """multi-PG frames: the assembled frame is handed to the bus on every path of the sender (11-bit and 29-bit format), and a received
+    multi-PG frame is dispatched to the decoder (otherwise groups are accepted by send_pgn / arrive on the bus but reach nobody)."""
+    from .common import lits
+    f = L.builder("__send_multi_pg")
+    n = bad = 0
+    for r in runs(ctx, f, unroll=1):
+        if r.term in ("raise", "exc", "cut"):
+            continue
+        n += 1
+        if not any(L.is_send(f, e) for _, e in r.effects()):
+            bad += 1
+    inst = "22 __send_multi_pg hands the frame to the bus on every path"
+    if n and not bad:
+        ctx.holds(rule, inst)
+    elif n:
+        ctx.violated(rule, f, inst, "a path assembles the frame and returns without sending it: the groups in it are lost", f.node)
+    else:
+        ctx.unknown(rule, "no path through %s" % f.qual)
+    g = L.notify
+    ok = any(e.kind == "call" and is_self_call(e.value, "_process_multi_pg") for r in runs(ctx, g) for _, e in r.effects())
+    inst = "22 notify dispatches multi-PG frames to the decoder"
+    if ok:
+        ctx.holds(rule, inst)
+    else:
+        ctx.violated(rule, g, inst, "received multi-PG frames are never decoded: no contained parameter group is delivered", g.node)
